@@ -1240,6 +1240,137 @@ theorem config_components_not_terminated (c : Config α) : ComponentsNotTerminat
       · cases h
       · split at h <;> cases h
 
+/-! ### Monotonicity of the concrete limits -/
+
+/-- a larger iteration limit passes wherever a smaller one does -/
+theorem iters_test_mono {L L' : Nat} (h : L ≤ L') (sz it : Nat)
+    (hok : (TermM.iters L).test sz it = .ok ()) : (TermM.iters L').test sz it = .ok () := by
+  rw [test_ok_iff] at hok ⊢
+  simp only [TermM.fires, Option.some.injEq, decide_eq_false_iff_not] at hok ⊢
+  omega
+
+/-- a larger size limit passes wherever a smaller one does -/
+theorem size_test_mono {S S' : Nat} (h : S ≤ S') (sz it : Nat)
+    (hok : (TermM.size S).test sz it = .ok ()) : (TermM.size S').test sz it = .ok () := by
+  rw [test_ok_iff] at hok ⊢
+  simp only [TermM.fires, Option.some.injEq, decide_eq_false_iff_not] at hok ⊢
+  omega
+
+/-- a larger time budget (same check frequency, same clock) passes wherever a smaller one does -/
+theorem runtime_test_mono {l l' freq b p : Nat} (h : l ≤ l') (sz it : Nat)
+    (hok : (TermM.runtime l freq b p).test sz it = .ok ()) :
+    (TermM.runtime l' freq b p).test sz it = .ok () := by
+  rw [test_ok_iff] at hok ⊢
+  simp only [TermM.fires] at hok ⊢
+  split at hok
+  · cases hok
+  · rename_i hf
+    split at hok
+    · rename_i hm
+      simp only [Option.some.injEq, decide_eq_false_iff_not] at hok
+      simp only [hf, hm, if_false, if_true, Option.some.injEq, decide_eq_false_iff_not]
+      omega
+    · rename_i hm
+      simp only [hf, hm, if_false]
+
+/-- dropping limits from a combination (at any depth: every limit of `m₂` occurs in `m`) keeps
+every pass -/
+theorem test_mono_of_leaves {m m₂ : TermM} (hsub : ∀ l, Leaf l m₂ → Leaf l m) (sz it : Nat)
+    (hok : m.test sz it = .ok ()) : m₂.test sz it = .ok () := by
+  have hz : ¬ ZeroFreq m₂ := by
+    rintro ⟨l, b, p, hl⟩
+    have := (test_panic_iff m sz it).2 ⟨l, b, p, hsub _ hl⟩
+    rw [hok] at this; cases this
+  exact test_mono hz (fun sz it l₂ hl₂ hf => ⟨l₂, hsub l₂ hl₂, hf⟩) sz it hok
+
+/-- the empty combination never fires: "no limit" -/
+theorem combined_nil_test (sz it : Nat) : (TermM.combined []).test sz it = .ok () := by
+  simp [TermM.test, TermM.fires, TermM.fires.firesList]
+
+/-! ### Configured instances (`Config.inst` sets `term := c.term.test`) -/
+
+section Config
+
+/-- with an `iters L` limit anywhere in the configured termination model -/
+theorem config_iterations_le_limit (c : Config α) {L : Nat} (hl : Leaf (.iters L) c.term)
+    {source : Nat} {target : Option Nat} {sched : List Nat} {s : SState α}
+    (hrun : runAStar c.inst source target sched = .ok s) :
+    s.iters ≤ L ∧ (target ≠ some source → s.iters < L) :=
+  iterations_le_limit (iterLimit_of_leaf (I := c.inst) rfl hl) hrun
+
+theorem config_runAStar_take (c : Config α) {L : Nat} (hl : Leaf (.iters L) c.term)
+    (source : Nat) (target : Option Nat) (sched : List Nat) :
+    runAStar c.inst source target sched = runAStar c.inst source target (sched.take L) :=
+  runAStar_take (iterLimit_of_leaf (I := c.inst) rfl hl) source target sched
+
+/-- with a `size S` limit anywhere in the configured termination model; `D` bounds the adjacency
+lists -/
+theorem config_size_le_limit_plus_degree (c : Config α) {S D : Nat} (hl : Leaf (.size S) c.term)
+    (hD : ∀ v, (c.inst.incident v).length ≤ D)
+    {source : Nat} {target : Option Nat} {sched : List Nat} {s : SState α}
+    (hrun : runAStar c.inst source target sched = .ok s) : s.solSize ≤ S + D ∧ s.solSize ≤ S :=
+  size_le_limit_plus_degree (sizeLimit_of_leaf (I := c.inst) rfl hl) hD hrun
+
+/-- with a runtime limit (`freq > 0`) anywhere in the configured termination model whose clock
+exceeds the budget from iteration `i₀` on -/
+theorem config_runtime_stops_at_next_check (c : Config α) {limitNs freq baseNs perNs i₀ : Nat}
+    (hl : Leaf (.runtime limitNs freq baseNs perNs) c.term) (hf : 0 < freq)
+    (hex : ∀ i, i₀ ≤ i → limitNs < baseNs + perNs * i)
+    {source : Nat} {target : Option Nat} {sched : List Nat} {s : SState α}
+    (hrun : runAStar c.inst source target sched = .ok s) :
+    s.iters ≤ nextCheck freq i₀ ∧ (target ≠ some source → s.iters < nextCheck freq i₀) :=
+  runtime_stops_at_next_check hf (runtimeLimit_of_leaf (I := c.inst) rfl hl hex) hrun
+
+/-- `success_monotone` between two configurations that differ in the termination model only -/
+theorem config_success_monotone (c : Config α) (m₂ : TermM)
+    (hmono : ∀ sz it, c.term.test sz it = .ok () → m₂.test sz it = .ok ())
+    {source : Nat} {target : Option Nat} {sched : List Nat} {r : SearchResult α}
+    (h : runVertexOriented c.inst source target sched = .ok r) :
+    runVertexOriented ({ c with term := m₂ } : Config α).inst source target sched = .ok r :=
+  success_monotone_route (I := c.inst) (I₂ := ({ c with term := m₂ } : Config α).inst)
+    ⟨rfl, rfl, rfl, rfl, rfl, rfl, rfl⟩ hmono h
+
+/-- `limited_prefix` for a configuration: the same query without any limit (`combined []`)
+returns exactly the same tree, iteration count and route -/
+theorem config_limited_prefix (c : Config α)
+    {source : Nat} {target : Option Nat} {sched : List Nat} {r : SearchResult α}
+    (h : runVertexOriented c.inst source target sched = .ok r) :
+    runVertexOriented ({ c with term := .combined [] } : Config α).inst source target sched = .ok r :=
+  config_success_monotone c (.combined []) (fun sz it _ => combined_nil_test sz it) h
+
+/-- the same for `Config.runVertex` (`SearchAlgorithmResult`) -/
+theorem config_runVertex_mono (c : Config α) (m₂ : TermM)
+    (hmono : ∀ sz it, c.term.test sz it = .ok () → m₂.test sz it = .ok ())
+    {source : Nat} {target : Option Nat} {sched : List Nat} {r : AlgResult α}
+    (h : c.runVertex source target sched = .ok r) :
+    ({ c with term := m₂ } : Config α).runVertex source target sched = .ok r := by
+  unfold Config.runVertex at h ⊢
+  split at h
+  · cases h
+  · rename_i res hres
+    rw [config_success_monotone c m₂ hmono hres]
+    exact h
+
+/-- a limit that fires at a loop head of a configured search makes the whole search fail with
+`Terminated` naming at least one limit (each a firing limit of the configured model) or with the
+frequency-0 panic; conversely a `Terminated` failure always comes from the termination model -/
+theorem config_terminated_from_limit (c : Config α) {source : Nat} {target : Option Nat}
+    {ks : List TermKind} (sched : List Nat) (s : SState α)
+    (h : runLoop c.inst source target sched s = .error (.terminated ks)) :
+    ∃ pre rest hd, sched = pre ++ rest ∧ Reach c.inst source target pre s hd ∧
+      c.term.test hd.solSize hd.iters = .error (.terminated ks) ∧ ks ≠ [] ∧
+      ∀ k ∈ ks, ∃ l, Leaf l c.term ∧ kindOf l = k ∧ l.fires hd.solSize hd.iters = some true := by
+  obtain ⟨pre, rest, hd, h1, h2, h3⟩ :=
+    terminated_from_limit (config_components_not_terminated c) sched s h
+  have h3' : c.term.test hd.solSize hd.iters = .error (.terminated ks) := h3
+  refine ⟨pre, rest, hd, h1, h2, h3', ?_⟩
+  rcases terminated_is_explicit c.term hd.solSize hd.iters with h4 | ⟨ks', h4, _, h5, _, h6⟩ | h4
+  · rw [h4.1] at h3'; cases h3'
+  · rw [h4] at h3'; cases h3'; exact ⟨h5, h6⟩
+  · rw [h4.1] at h3'; cases h3'
+
+end Config
+
 /-! ### Non-vacuity: the four-vertex instance of `SearchTree.Example` under limits
 
 Unlimited, the schedule `[0, 1, 2, 3]` to target 3 performs 3 expansions, builds a 3-entry tree and
